@@ -1,3 +1,166 @@
-pub fn c06_dummy(pks: Vec<(Pk, &[u8])>, sig: Sig, dst: &[u8]) {
-    let r = BlsSignatureCore__core_aggregate_verify(pks, sig, dst);
+// ---------------------------------------------------------------------------------------------
+// C06 — aggregate verification: complete, exact, distinct messages enforced in Basic.
+// Lists have ANY length (induction); the reference decision is CoreAggregateVerify written in
+// discrete-log form from the IETF draft.
+// ---------------------------------------------------------------------------------------------
+
+/// reference: every key valid, (Basic: messages pairwise distinct), sum_i h(m_i) X_i == dl(sig)
+pub open spec fn ietf_aggregate_verify(s: SignatureSchemes, l: Seq<(Pk, &[u8])>, sig: Sig) -> bool {
+    &&& forall|i: int| 0 <= i < l.len() ==> (#[trigger] l[i]).0.dl() != 0
+    &&& match s {
+        SignatureSchemes::Basic => msgs_distinct(l) && sum_hx(l, DST_BASIC()) == sig.dl(),
+        SignatureSchemes::MessageAugmentation => sum_hx_aug(l, DST_AUG()) == sig.dl(),
+        SignatureSchemes::ProofOfPossession => sum_hx(l, DST_POP_SIG()) == sig.dl(),
+    }
+}
+
+pub proof fn lemma_distinct_prefix_iff<B: AsRefBytes>(l: Seq<(Pk, B)>, n: int)
+    requires 0 <= n <= l.len(),
+    ensures distinct_prefix(l, n) <==> (forall|i: int, j: int| 0 <= i < j < n ==> (#[trigger] l[i]).1.bytes() != (#[trigger] l[j]).1.bytes()),
+    decreases n
+{
+    if n > 0 {
+        lemma_distinct_prefix_iff(l, n - 1);
+        lemma_seen_iff(l, n - 1, l[n - 1].1.bytes());
+    }
+}
+pub proof fn lemma_seen_iff<B: AsRefBytes>(l: Seq<(Pk, B)>, n: int, b: Seq<u8>)
+    requires 0 <= n <= l.len(),
+    ensures seen(l, n, b) <==> (exists|i: int| 0 <= i < n && (#[trigger] l[i]).1.bytes() == b),
+    decreases n
+{
+    if n > 0 {
+        lemma_seen_iff(l, n - 1, b);
+        if seen(l, n, b) {
+            if l[n - 1].1.bytes() == b { assert(0 <= n - 1 < n && l[n - 1].1.bytes() == b); }
+            else { let i = choose|i: int| 0 <= i < n - 1 && (#[trigger] l[i]).1.bytes() == b; assert(0 <= i < n && l[i].1.bytes() == b); }
+        }
+        if exists|i: int| 0 <= i < n && (#[trigger] l[i]).1.bytes() == b {
+            let i = choose|i: int| 0 <= i < n && (#[trigger] l[i]).1.bytes() == b;
+            if i < n - 1 { assert(0 <= i < n - 1 && l[i].1.bytes() == b); }
+        }
+    }
+}
+
+/// the library's decision equals the reference on EVERY (aggregate, list) — in particular a
+/// Basic list with a repeated message is rejected even when the sum matches, while the
+/// augmentation and proof-of-possession schemes do not look at repetitions
+pub fn c06_decision_equals_reference(agg: &AggregateSignature, data: &[(PublicKey, &[u8])])
+    requires agg_point(*agg).dl() != 0,
+{
+    let v = agg.verify(data);
+    proof {
+        let l = data_pairs(data@);
+        let sig = agg_point(*agg);
+        lemma_agg_eq_iff(l, sig, DST_BASIC());
+        lemma_agg_eq_iff(l, sig, DST_POP_SIG());
+        lemma_aug_eq_iff(l, sig, DST_AUG());
+        lemma_distinct_prefix_iff(l, l.len() as int);
+    }
+    assert(v is Ok <==> ietf_aggregate_verify(agg_scheme(*agg), data_pairs(data@), agg_point(*agg)));
+}
+
+/// honest aggregate: sigs[i] is what key x_i produces for m_i under scheme s (C01's postcondition)
+pub open spec fn honest_sigs(s: SignatureSchemes, sigs: Seq<Signature>, l: Seq<(Pk, &[u8])>) -> bool {
+    &&& sigs.len() == l.len()
+    &&& forall|i: int| 0 <= i < sigs.len() ==> sig_scheme(#[trigger] sigs[i]) == s
+    &&& forall|i: int| 0 <= i < sigs.len() ==> sig_point(#[trigger] sigs[i]).dl()
+            == fmul(hp(scheme_msg(s, l[i].0, l[i].1@), scheme_dst(s)).dl(), l[i].0.dl())
+}
+
+pub proof fn lemma_honest_sum(s: SignatureSchemes, sigs: Seq<Signature>, l: Seq<(Pk, &[u8])>, n: int)
+    requires honest_sigs(s, sigs, l), 0 <= n <= l.len(),
+    ensures
+        s != SignatureSchemes::MessageAugmentation ==> plain_sum(sigs, n) == sum_hx(l.take(n), scheme_dst(s)),
+        s == SignatureSchemes::MessageAugmentation ==> plain_sum(sigs, n) == sum_hx_aug(l.take(n), scheme_dst(s)),
+    decreases n
+{
+    if n > 0 {
+        lemma_honest_sum(s, sigs, l, n - 1);
+        assert(l.take(n).drop_last() =~= l.take(n - 1));
+        assert(l.take(n).last() == l[n - 1]);
+    }
+}
+
+/// n >= 2 honest signatures of one scheme aggregate, and the aggregate verifies against exactly
+/// the list that produced it
+pub fn c06_honest_aggregate_verifies(scheme: SignatureSchemes, sigs: &[Signature], data: &[(PublicKey, &[u8])])
+    requires
+        sigs@.len() >= 2,
+        honest_sigs(scheme, sigs@, data_pairs(data@)),
+        forall|i: int| 0 <= i < data@.len() ==> (#[trigger] data@[i]).0.0.dl() != 0,
+        scheme == SignatureSchemes::Basic ==> msgs_distinct(data_pairs(data@)),
+        plain_sum(sigs@, sigs@.len() as int) != 0,     // the aggregate is not the identity (X-LIN)
+{
+    let r = AggregateSignature::from_signatures(sigs);
+    assert(r is Ok) by { assert(all_same_scheme(sigs@)); }
+    match r {
+        Ok(agg) => {
+            proof {
+                let l = data_pairs(data@);
+                lemma_accumulated_is_plain_sum(sigs@, sigs@.len() as int);
+                lemma_honest_sum(scheme, sigs@, l, l.len() as int);
+                assert(l.take(l.len() as int) =~= l);
+                lemma_agg_eq_iff(l, agg_point(agg), DST_BASIC());
+                lemma_agg_eq_iff(l, agg_point(agg), DST_POP_SIG());
+                lemma_aug_eq_iff(l, agg_point(agg), DST_AUG());
+                lemma_distinct_prefix_iff(l, l.len() as int);
+                assert(agg_guards(l, agg_point(agg)));
+            }
+            let v = agg.verify(data);
+            assert(v is Ok);
+        }
+        Err(_) => {}
+    }
+}
+
+/// fewer than two signatures, or mixed schemes, are refused
+pub fn c06_refusals(sigs: &[Signature])
+    requires sigs@.len() < 2 || !all_same_scheme(sigs@),
+{
+    let r = AggregateSignature::from_signatures(sigs);
+    assert(r is Err);
+}
+
+/// exactness: the accepted aggregate point is unique, so altering a key or a message, dropping or
+/// adding a pair, or swapping two messages between different signers changes the verdict exactly
+/// when it changes the reference sum (no accidental relation, X-LIN, is the stated hypothesis)
+pub proof fn c06_perturbation_rejected(s: SignatureSchemes, l: Seq<(Pk, &[u8])>, l2: Seq<(Pk, &[u8])>, sig: Sig)
+    requires
+        ietf_aggregate_verify(s, l, sig),
+        s != SignatureSchemes::MessageAugmentation ==> sum_hx(l2, scheme_dst(s)) != sum_hx(l, scheme_dst(s)),      // X-LIN
+        s == SignatureSchemes::MessageAugmentation ==> sum_hx_aug(l2, scheme_dst(s)) != sum_hx_aug(l, scheme_dst(s)),
+    ensures !ietf_aggregate_verify(s, l2, sig)
+{}
+
+/// order independence: swapping two neighbouring pairs leaves the sum (hence the verdict) unchanged;
+/// every permutation is a product of such swaps
+pub proof fn c06_adjacent_swap<B: AsRefBytes>(l: Seq<(Pk, B)>, i: int, d: Seq<u8>)
+    requires 0 <= i, i + 1 < l.len(),
+    ensures sum_hx(l.update(i, l[i + 1]).update(i + 1, l[i]), d) == sum_hx(l, d)
+    decreases l.len()
+{
+    broadcast use ring;
+    let l2 = l.update(i, l[i + 1]).update(i + 1, l[i]);
+    if i + 2 == l.len() {
+        let p = l.drop_last().drop_last();
+        assert(l2.drop_last().drop_last() =~= p);
+        assert(l2.last() == l[i]);
+        assert(l2.drop_last().last() == l[i + 1]);
+        assert(l.drop_last().last() == l[i]);
+        lemma_sum_ranges(p, d);
+        let a = sum_hx(p, d);
+        let t1 = fmul(hp(l[i].1.bytes(), d).dl(), l[i].0.dl());
+        let t2 = fmul(hp(l[i + 1].1.bytes(), d).dl(), l[i + 1].0.dl());
+        reveal_with_fuel(sum_hx, 3);
+        assert(sum_hx(l, d) == fadd(fadd(a, t1), t2));
+        assert(sum_hx(l2, d) == fadd(fadd(a, t2), t1));
+        assert(fadd(fadd(a, t1), t2) == fadd(a, fadd(t1, t2)));
+        assert(fadd(t1, t2) == fadd(t2, t1));
+        assert(fadd(a, fadd(t2, t1)) == fadd(fadd(a, t2), t1));
+    } else {
+        c06_adjacent_swap(l.drop_last(), i, d);
+        assert(l2.drop_last() =~= l.drop_last().update(i, l[i + 1]).update(i + 1, l[i]));
+        assert(l2.last() == l.last());
+    }
 }
